@@ -98,7 +98,7 @@ def verify_one(job):
             res["wall"] = time.time() - t0
             return res
         c = reg.contracts[q]
-        fi = repo.funcs.get(q)
+        fi = repo.funcs.get(c.target)
         if fi is None:
             res["unsupported"] = f"target {q} not found in the repository (renamed or removed)"
             return res
